@@ -38,6 +38,7 @@ type Gen struct {
 	Alphabet string // when non-empty symbolic string bytes are restricted to it
 	Lazy     bool   // nested values are materialised on first inspection
 	EmptyNames bool // symbol, keyword and key names may be empty
+	NilMaps    bool // empty maps and sets may have a nil Go map
 }
 
 func itoa(i int) string { return strconv.Itoa(i) }
@@ -45,6 +46,11 @@ func itoa(i int) string { return strconv.Itoa(i) }
 // Pick returns names[Choice] (forks over the feasible indices).
 func Pick(tag string, names []string) string {
 	return names[vrt.Concrete(vrt.Choice(tag, len(names)))]
+}
+
+// PickVal returns vals[Choice] (forks over the feasible indices).
+func PickVal(tag string, vals []MalType) MalType {
+	return vals[vrt.Concrete(vrt.Choice(tag, len(vals)))]
 }
 
 // Str returns a string of 0..StrLen symbolic bytes (one fork per length).
@@ -141,6 +147,9 @@ func (g *Gen) Value(tag string, d int) MalType {
 			vrt.Assume(false)
 		}
 		n := vrt.Concrete(vrt.Choice(tag+"/n", g.Width+1))
+		if n == 0 && g.NilMaps && vrt.Bool(tag+"/nilmap") {
+			return HashMap{} // an empty map whose Go map is nil (as (hash-map) / NewHashMap(nil) build it)
+		}
 		m := map[string]MalType{}
 		for i := 0; i < n; i++ {
 			key := g.Key(tag + "/k" + itoa(i))
@@ -154,6 +163,9 @@ func (g *Gen) Value(tag string, d int) MalType {
 			vrt.Assume(false)
 		}
 		n := vrt.Concrete(vrt.Choice(tag+"/n", g.Width+1))
+		if n == 0 && g.NilMaps && vrt.Bool(tag+"/nilset") {
+			return Set{} // an empty set whose Go map is nil (as (set nil) / NewSet(nil) build it)
+		}
 		m := map[string]struct{}{}
 		for i := 0; i < n; i++ {
 			key := g.Key(tag + "/m" + itoa(i))
